@@ -156,6 +156,8 @@ class Session:
         self.log = []
         self.removed = []   # (object) taken out of the model and not re-added since
         self.dead = set()   # ids of placeholders for unreachable temporaries
+        self.kept = []      # query results the "caller" keeps across later edits: (list object, ids at query time, what, op index)
+        self.focus = None   # the parent the last edit worked on (query - edit - query on the SAME parent)
         self.emit("reset", "ok ")
 
     # ---- bookkeeping
@@ -314,11 +316,15 @@ class Session:
                 g = 1 if deep or kind in ("flags", "type") and rng.random() < 0.5 else rng.randint(-1, 4)
                 if kind == "bad":
                     deep, g = True, rng.randint(2, 3)
+                requery = None
                 try:
                     if pk == "flags" and not deep and g == 1 and rng.random() < 0.5:
-                        got = n.getChildrenWithFlags(spec, exactMatch=exact)
-                    elif pk == "all" and rng.random() < 0.5:
-                        got = n.getChildren(deep=deep, generationNum=g)
+                        requery = lambda: n.getChildrenWithFlags(spec, exactMatch=exact)
+                        got = requery()
+                    elif rng.random() < 0.5:
+                        # getChildren with every argument combination (explicit predicate or none)
+                        requery = lambda: n.getChildren(deep=deep, generationNum=g, predicate=None if pk == "all" else pred)
+                        got = requery()
                     else:
                         got = list(n.iterChildren(deep=deep, generationNum=g, predicate=pred))
                     line = ids(got)
@@ -338,12 +344,17 @@ class Session:
                              observed=None if got is None else ids(got), expected=None if exp is None else ids(exp))
                 if got is not None and len({id(x) for x in got}) != len(got):
                     ctx.fail("traversal-returns-object-twice", "each object once", self.case(), observed=ids(got))
+                if requery is not None and got is not None and exp is not None:
+                    self.fresh_check(n, got, requery, exp, f"list query (deep={deep}, generationNum={g}, predicate={preq})")
             elif kind == "comps":
                 got = n.getComponents(spec, exact)
                 if list(n.iterComponents(spec, exact)) != got:
                     ctx.fail("components-iter-vs-get", "iterComponents and getComponents agree", self.case())
                 self.emit(f"comps {self.idx(n)} {sreq} {'T' if exact else 'F'}", ids(got))
                 exp = naive_comps(n, lambda o: ref_has_flags(o, spec, exact))
+                got, got0 = list(got), got
+                if [id(x) for x in got] == [id(x) for x in exp]:
+                    self.fresh_check(n, got0, lambda: n.getComponents(spec, exact), exp, f"getComponents({sreq}, {exact})")
                 if [id(x) for x in got] != [id(x) for x in exp]:
                     ctx.fail("traversal-components-differs-from-naive-walk", "leaf components in depth-first child order",
                              self.case() | {"root": self.idx(n), "spec": sreq, "exact": exact}, observed=ids(got), expected=ids(exp))
@@ -368,6 +379,123 @@ class Session:
                     ctx.fail("ancestor-query-differs-from-parent-chain", "first object on the parent chain satisfying the predicate",
                              self.case() | {"start": self.idx(n), "predicate": preq}, observed=line,
                              expected=None if exp is None else [self.idx(exp[0]), exp[1]])
+
+    # ---- a query result belongs to the caller (fresh list): mutate it / keep it across edits
+    def fresh_check(self, n, got, requery, naive, what):
+        """`got` is the list a list-returning query handed back.  Either the caller mutates it in place right away (the
+        tree must not notice, and asking again must give the naive answer), or keeps it (it must not change under the
+        caller when the tree is edited later: `check_kept`)."""
+        ctx, rng = self.ctx, self.rng
+        if not isinstance(got, list):
+            return
+        if rng.random() < 0.5:
+            self.kept.append((got, [id(x) for x in got], what, self.nops, self.idx(n)))
+            del self.kept[:-8]
+            return
+        before = self.state()
+        how = rng.choice(["reverse", "pop", "append", "sort", "clear", "insert", "del-slice"])
+        try:
+            if how == "reverse":
+                got.reverse()
+            elif how == "pop":
+                got and got.pop(rng.randrange(len(got)))
+            elif how == "append":
+                got.append(rng.choice(self.objs))
+            elif how == "sort":
+                got.sort(key=lambda o: -id(o))
+            elif how == "clear":
+                got.clear()
+            elif how == "insert":
+                got.insert(0, rng.choice(self.objs))
+            else:
+                del got[::2]
+        except Exception:
+            return
+        ctx.count(f"caller mutates a query result in place ({how})")
+        case = self.case() | {"root": self.idx(n), "root_type": type(n).__name__, "query": what, "caller": f"result.{how}()"}
+        after = self.state()
+        if after != before:
+            ctx.fail("query-result-aliases-tree", "a traversal query hands back a fresh list: mutating the result does not change "
+                     "the tree (child order, membership, parents)", case, observed=after[:300], expected=before[:300])
+            raise _Broken()
+        again = requery()
+        if [id(x) for x in again] != [id(x) for x in naive]:
+            ctx.fail("query-result-shared-between-calls", "a traversal query hands back a fresh list: a later call is not affected "
+                     "by what the caller did to an earlier result", case,
+                     observed=[self.ids.get(id(x), "?") for x in again], expected=[self.ids.get(id(x), "?") for x in naive])
+
+    def check_kept(self, req):
+        """results taken BEFORE this edit are the caller's: they still hold what they held"""
+        for got, ids0, what, at, root in self.kept:
+            if [id(x) for x in got] != ids0:
+                self.ctx.fail("query-result-changes-under-caller", "a result taken before an edit does not change when the tree "
+                              "is edited afterwards", self.case() | {"root": root, "query": what, "taken_at_op": at, "edit": req},
+                              observed=[self.ids.get(id(x), "?") for x in got], expected=[self.ids.get(i_, "?") for i_ in ids0])
+                self.kept = []
+                raise _Broken()
+        self.kept = [k for k in self.kept if self.nops - k[3] <= 4]
+
+    # ---- query - edit - query on the SAME parent
+    def battery(self):
+        """every kind of direct-children query on the parent the last edit worked on (and on its parent), each against the
+        raw child list at this moment; the next edit is steered to the same parent half of the time"""
+        from armi.reactor.flags import Flags
+
+        n = self.focus
+        if n is None or self.idx(n) is None or id(n) in self.dead or self.rng.random() < 0.35:
+            return
+        ctx, rng = self.ctx, self.rng
+        ids = lambda l: "[" + ",".join(str(self.ids.get(id(x), "?")) for x in l) + "]"
+        raw = list(n)
+        case = lambda q: self.case() | {"root": self.idx(n), "root_type": type(n).__name__, "query": q, "after_edit": self.log[-1:] }
+        def judge(got, exp, q, key="query-after-edit-differs-from-child-lists"):
+            if [id(x) for x in got] != [id(x) for x in exp]:
+                ctx.fail(key, "a traversal query repeated after an edit reflects the edit (the child lists at that moment)",
+                         case(q), observed=ids(got), expected=ids(exp))
+        ctx.count("battery: all direct-children queries on the parent just edited")
+        # plain
+        got = n.getChildren()
+        self.emit(f"iter {self.idx(n)} F 1 none", ids(got)); judge(got, raw, "getChildren()")
+        self.fresh_check(n, got, lambda: n.getChildren(), raw, "getChildren()")
+        got = n.getChildren(deep=True)
+        self.emit(f"iter {self.idx(n)} T 1 none", ids(got)); judge(got, naive_deep(n), "getChildren(deep=True)")
+        # by type name (only where every child has a type)
+        typed = all(_safe_type(c) is not None for c in raw)
+        if typed:
+            names = sorted({_safe_type(c) for c in raw} | {_safe_type(c) for c in self.removed[-3:] if _safe_type(c)} | {rng.choice(TYPE_POOL)})
+            for t in names[:5]:
+                exp = [c for c in raw if _safe_type(c) == t]
+                form = rng.choice(["getChildrenOfType", "iterChildrenOfType"])
+                got = n.getChildrenOfType(t) if form == "getChildrenOfType" else list(n.iterChildrenOfType(t))
+                self.emit(f"kidstype {self.idx(n)} {type_code_of(t)}", ids(got)); judge(got, exp, f"{form}({t!r})")
+                if form == "getChildrenOfType":
+                    self.fresh_check(n, got, lambda t=t: n.getChildrenOfType(t), exp, f"getChildrenOfType({t!r})")
+                if kind_of(n) == K_ASSEMBLY:
+                    g1 = n.getFirstBlockByType(t)
+                    self.emit(f"firsttype {self.idx(n)} {type_code_of(t)}", one_id(self, g1))
+                    if g1 is not (exp[0] if exp else None):
+                        ctx.fail("query-after-edit-differs-from-child-lists", "a traversal query repeated after an edit reflects the edit",
+                                 case(f"getFirstBlockByType({t!r})"), observed=one_id(self, g1), expected=one_id(self, exp[0] if exp else None))
+        # by flags
+        vals = sorted({int(c.p.flags) for c in raw if c.p.flags} | {int(c.p.flags) for c in self.removed[-3:] if c.p.flags})
+        for v in vals[:4]:
+            exact = rng.random() < 0.5
+            exp = [c for c in raw if ref_has_flags(c, Flags(v), exact)]
+            got = n.getChildrenWithFlags(Flags(v), exactMatch=exact)
+            self.emit(f"kidsflags {self.idx(n)} f{v} {'T' if exact else 'F'}", ids(got)); judge(got, exp, f"getChildrenWithFlags(f{v}, exact={exact})")
+            self.fresh_check(n, got, lambda v=v, exact=exact: n.getChildrenWithFlags(Flags(v), exactMatch=exact), exp, f"getChildrenWithFlags(f{v})")
+            if kind_of(n) == K_ASSEMBLY:
+                gb = n.getBlocks(Flags(v), exact)
+                judge(gb, exp, f"getBlocks(f{v}, exact={exact})")
+                self.fresh_check(n, gb, lambda v=v, exact=exact: n.getBlocks(Flags(v), exact), exp, f"getBlocks(f{v})")
+        if kind_of(n) == K_ASSEMBLY:
+            gb = n.getBlocks()
+            judge(gb, raw, "getBlocks()")
+            self.fresh_check(n, gb, lambda: n.getBlocks(), raw, "getBlocks()")
+        # leaf components
+        got = n.getComponents()
+        self.emit(f"comps {self.idx(n)} _ F", ids(got)); judge(got, naive_comps(n, lambda o: True), "getComponents()")
+        self.fresh_check(n, got, lambda: n.getComponents(), naive_comps(n, lambda o: True), "getComponents()")
 
     def more_queries(self, kind, n, flagpool, ids):
         """queries called WITHOUT a predicate (predicate=None paths, includeMaterials, what is built on them) and the
@@ -426,6 +554,10 @@ class Session:
                 if (got is None) != (naive is None) or (got is not None and [id(x) for x in got] != [id(x) for x in naive]):
                     fail_walk(f"traversal-without-predicate-differs-from-naive-walk", f"{form}(deep={deep}, generationNum={g})",
                               None if got is None else ids(got), None if naive is None else ids(naive))
+                elif got is not None and form.startswith("getChildren") or (got is not None and form == "default"):
+                    rq = (lambda: n.getChildren()) if form == "default" else (lambda: n.getChildren(deep, g, False, None)) \
+                        if form == "getChildren-None" else (lambda: n.getChildren(deep=deep, generationNum=g))
+                    self.fresh_check(n, got, rq, naive, f"{form}(deep={deep}, generationNum={g})")
             else:
                 usepred = rng.random() < 0.3
                 r = rng.randint(0, 1)
@@ -465,6 +597,9 @@ class Session:
                 if line != want:
                     fail_walk("traversal-with-materials-differs-from-naive-walk", f"{form}(deep={deep}, generationNum={g}, "
                               f"includeMaterials=True, predicate={'parity' if usepred else None})", line, want)
+                elif got is not None and form == "getChildren":
+                    self.fresh_check(n, got, lambda: n.getChildren(deep=deep, generationNum=g, includeMaterials=True, predicate=pred),
+                                     [x if t_ == "o" else x.material for t_, x in exp], f"getChildren(deep={deep}, generationNum={g}, includeMaterials=True)")
         elif kind == "typed":
             def has_type(o):
                 try:
@@ -490,6 +625,10 @@ class Session:
             ctx.count(f"query typed/{form}")
             if [id(x) for x in got] != [id(x) for x in exp]:
                 fail_walk("typed-children-query-differs-from-naive-walk", what, ids(got), ids(exp))
+            elif form == "getChildrenWithFlags":
+                self.fresh_check(n, got, lambda: n.getChildrenWithFlags(spec, exactMatch=exact), exp, what)
+            elif form == "getChildrenOfType":
+                self.fresh_check(n, got, lambda: n.getChildrenOfType(t), exp, what)
         elif kind == "first":
             assems = [o for o in self.objs if kind_of(o) == K_ASSEMBLY and id(o) not in self.dead]
             if not assems:
@@ -620,6 +759,12 @@ class Session:
         self.emit(req, ("ok " if ok else "reject ") + self.state())
         nfail = len(self.ctx.failures)
         self.check_inv(what)
+        self.check_kept(req)
+        w = req.split()
+        if w[0] in ("add", "insert", "remove", "removeAll", "setChildren", "discharge", "sfpadd", "sort", "reest") and w[1].isdigit():
+            self.focus = self.objs[int(w[1])]
+        elif w[0] == "setmeta":
+            self.focus = self.objs[int(w[1])].parent
         self.ctx.count(f"op {what}{'' if ok else ' (raised)'}")
         if len(self.ctx.failures) > nfail and self.shape != "excluded":
             # the real tree is no longer well formed: later walks may not terminate; the sequence ends here
@@ -930,8 +1075,10 @@ def run_sequence(ctx, shape, seq_seed, batch, nops, nq):
         # (no component removal here: Core.add needs geometrically complete blocks)
         ops = ["coreadd", "coreadd", "coreremove", "copychild", "add", "insert", "remove", "sort", "copy", "reest", "moveto",
                "replace", "discharge", "discharge", "sfpadd", "sfpremove"]
+    ops = ops + EXTRA_OPS[shape]
     ses.check_inv("initial")
-    ses.queries(nq)
+    if not _guarded(ses, "query", lambda: ses.queries(nq)):
+        nops = 0
     for _ in range(nops):
         op = rng.choice(ops)
         objs = ses.objs
@@ -950,7 +1097,11 @@ def run_sequence(ctx, shape, seq_seed, batch, nops, nq):
             except RecursionError:
                 ctx.fail("walk-does-not-terminate", "the child lists form a finite tree", ses.case())
                 break
-        ses.queries(nq)
+            except Exception as e:  # noqa: BLE001
+                _raised(ses, "copy" if op in ("copy", "copychild") else "op", e, {"op": op})
+                break
+        if not _guarded(ses, "query", lambda: (ses.battery(), ses.queries(nq))):
+            break
     ctx.case((shape, seq_seed), nontrivial=ses.nops > 0,
              sample={"shape": shape, "seq_seed": seq_seed, "ops": ses.log[:8], "final_state": ses.state()[:300]})
     ctx.traces += 1
@@ -1026,17 +1177,60 @@ class _Skip(Exception):
     pass
 
 
+# the caller-side idioms (C01-c) and meta-data edits (C01-d), per shape
+EXTRA_OPS = {
+    "generic": ["reorder", "reorder", "drain", "retype", "clearcache"],
+    "block": ["reorder", "drain", "retype", "retype", "clearcache"],
+    "assembly": ["reorder", "reorder", "drain", "retype", "retype", "retype", "clearcache"],
+    "core": ["reorder", "retype", "retype", "retype", "clearcache", "coredrain"],
+}
+
+
+def pick_parent(ses, parents):
+    """half of the time the edit goes to the parent the previous edit (and the query battery after it) worked on"""
+    f = ses.focus
+    if f is not None and ses.rng.random() < 0.5 and any(f is p for p in parents):
+        return f
+    return ses.rng.choice(parents)
+
+
+def _raised(ses, phase, e, extra=None):
+    """an exception that came OUT OF THE REAL CODE on a valid input (op, query, copy, pickle) is a failing input of the
+    property, keyed by the phase, with the op history as replay; an exception of the harness itself is re-raised"""
+    import traceback
+
+    if isinstance(e, (_Skip, _Abort, _Broken, common.Infra, KeyboardInterrupt)):
+        raise e
+    tb = traceback.extract_tb(e.__traceback__)
+    inarmi = [f"{os.path.basename(f.filename)}:{f.lineno} {f.name}" for f in tb if "/armi/" in f.filename]
+    if not inarmi:
+        raise e
+    incheck = [f"{os.path.basename(f.filename)}:{f.lineno} {f.name}" for f in tb if "/harness/" in f.filename]
+    ses.ctx.fail(f"{phase}-raises", "every edit, traversal query, deep copy and pickle round trip of a valid-use history "
+                 "completes (the real code raised)", ses.case() | (extra or {}),
+                 observed={"exception": repr(e)[:200], "armi_frames": inarmi[-4:], "check_frames": incheck[-2:]})
+    ses.ctx.count(f"sequence ended: the real code raised during a {phase}")
+
+
+def _guarded(ses, phase, fn):
+    try:
+        with common.quiet():
+            fn()
+        return True
+    except (_Skip, _Abort):
+        return True
+    except _Broken:
+        return False
+    except RecursionError:
+        ses.ctx.fail("walk-does-not-terminate", "the child lists form a finite tree", ses.case())
+        return False
+    except Exception as e:  # noqa: BLE001
+        _raised(ses, phase, e)
+        return False
+
+
 class _Broken(Exception):
     """the oracle found the real tree broken; the rest of the sequence is meaningless"""
-
-
-def _stale_multi(c, p):
-    """valid-use guard for the known finding `copy-multiindex-cells-on-other-grid`: c carries a DETACHED multi-index
-    location whose cells are still the (attached) cells of its former owner's grid, and p owns a grid -- re-adding c
-    there makes a later copy re-associate those shared cells (the directed excluded point runs exactly this)"""
-    loc = c.spatialLocator
-    return (p.spatialGrid is not None and type(loc).__name__ == "MultiIndexLocation" and loc.grid is None
-            and any(q.grid is not None for q in loc))
 
 
 def _parents_for(ses, shape, kinds):
@@ -1091,15 +1285,12 @@ def _one_op(ses, op, shape, core):
     if not parents:
         raise _Skip()
     if op in ("add", "insert"):
-        p = rng.choice(parents)
+        p = pick_parent(ses, parents)
         anc = ses.ancestors_or_self(p)
         cands = [c for c in objs if c.parent is None and not any(c is x for x in anc) and child_ok(p, c)
                  and K(c) not in (K_CORE,) and type(c).__name__ not in ("Reactor", "SpentFuelPool")]
         if shape == "core":
             cands = [c for c in cands if K(c) == K_BLOCK]
-        if any(_stale_multi(c, p) for c in cands):
-            ses.ctx.count("candidates left out: detached multi-index location sharing cells with the former grid (known finding)")
-            cands = [c for c in cands if not _stale_multi(c, p)]
         if not cands:
             raise _Skip()
         c = rng.choice(cands)
@@ -1116,13 +1307,13 @@ def _one_op(ses, op, shape, core):
         ps = [p for p in parents if len(p)]
         if not ps:
             raise _Skip()
-        p = rng.choice(ps)
+        p = pick_parent(ses, ps)
         c = rng.choice(list(p))
         ok = _call(lambda: p.remove(c))
         ses.removed.append(c)
         ses.after(f"remove {ses.idx(p)} {ses.idx(c)}", ok, "remove")
     elif op == "removeAll":
-        p = rng.choice(parents)
+        p = pick_parent(ses, parents)
         ks = list(p)
         ok = _call(lambda: p.removeAll(), multi=True)
         ses.removed += [k for k in ks if not any(k is x for x in p)]
@@ -1134,14 +1325,9 @@ def _one_op(ses, op, shape, core):
                          observed=[ses.idx(c) for c in left], expected=[])
         ses.after(f"removeAll {ses.idx(p)}", ok, op)
     elif op == "setChildren":
-        p = rng.choice(parents)
+        p = pick_parent(ses, parents)
         anc = ses.ancestors_or_self(p)
-        cands = [c for c in objs if (c.parent is None or c.parent is p) and not any(c is x for x in anc) and child_ok(p, c)
-                 and not _stale_multi(c, p)]
-        # (a current child located by a multi-index location would be detached by removeAll and re-added under p: the same
-        # excluded configuration once a sibling shares a cell)
-        if p.spatialGrid is not None:
-            cands = [c for c in cands if not (c.parent is p and type(c.spatialLocator).__name__ == "MultiIndexLocation")]
+        cands = [c for c in objs if (c.parent is None or c.parent is p) and not any(c is x for x in anc) and child_ok(p, c)]
         ks = rng.sample(cands, min(len(cands), rng.randint(0, 4)))
         old = list(p)
         ok = _call(lambda: p.setChildren(ks), multi=True)
@@ -1151,6 +1337,91 @@ def _one_op(ses, op, shape, core):
                          "every other former child is out of the model", ses.case() | {"parent": ses.idx(p)},
                          observed=[ses.idx(c) for c in p], expected=[ses.idx(k) for k in ks])
         ses.after(f"setChildren {ses.idx(p)} [{','.join(str(ses.idx(k)) for k in ks)}]", ok, op)
+    elif op == "reorder":
+        # the re-ordering idiom: order = x.getChildren(); order.sort(...) / reverse() / shuffle; x.setChildren(order)
+        ps = [p for p in parents if len(p) >= 1]
+        if not ps:
+            raise _Skip()
+        p = pick_parent(ses, ps)
+        order = p.getChildren()
+        how = rng.choice(["reverse", "sort", "shuffle", "as-is"])
+        if how == "reverse":
+            order.reverse()
+        elif how == "sort":
+            order.sort(key=lambda o: -ses.idx(o))
+        elif how == "shuffle":
+            rng.shuffle(order)
+        want = list(order)
+        ok = _call(lambda: p.setChildren(order), multi=True)
+        ses.ctx.count(f"idiom: order = x.getChildren(); order.{how}; x.setChildren(order) on a {type(p).__name__}")
+        if ok and ([id(c) for c in p] != [id(c) for c in want] or any(c.parent is not p for c in want)):
+            ses.ctx.fail("reorder-idiom-loses-children", "order = x.getChildren(); <re-order it>; x.setChildren(order) leaves x with "
+                         "exactly those children in that order, each with parent x", ses.case() | {"parent": ses.idx(p), "how": how,
+                         "parent_type": type(p).__name__}, observed=[ses.idx(c) for c in p], expected=[ses.idx(c) for c in want])
+        ses.after(f"setChildren {ses.idx(p)} [{','.join(str(ses.idx(k)) for k in want)}]", ok, "setChildren")
+    elif op == "drain":
+        # for c in x.getChildren(): x.remove(c)
+        ps = [p for p in parents if len(p) >= 1]
+        if not ps:
+            raise _Skip()
+        p = pick_parent(ses, ps)
+        was = list(p)
+
+        def loop():
+            for c in p.getChildren():
+                p.remove(c)
+        ok = _call(loop, multi=True)
+        ses.ctx.count(f"idiom: for c in x.getChildren(): x.remove(c) on a {type(p).__name__}")
+        ses.removed += [k for k in was if not any(k is x for x in p)]
+        if ok and len(p):
+            ses.ctx.fail("remove-while-iterating-query-result-skips-children", "for c in x.getChildren(): x.remove(c) removes every "
+                         "child (the result is the caller's list, not the live child list)",
+                         ses.case() | {"parent": ses.idx(p), "parent_type": type(p).__name__},
+                         observed=[ses.idx(c) for c in p], expected=[])
+        ses.after(f"removeAll {ses.idx(p)}", ok, "removeAll")
+    elif op == "coredrain":
+        if len(core) == 0 or rng.random() < 0.6:
+            raise _Skip()
+        was = list(core)
+        for a in core.getChildren():
+            ok = _call(lambda: core.removeAssembly(a, discharge=False))
+            ses.removed.append(a)
+            ses.after(f"discharge {ses.idx(core)} {ses.idx(a)} _", ok, "Core.removeAssembly")
+        ses.ctx.count("idiom: for a in core.getChildren(): core.removeAssembly(a)")
+        if len(core):
+            ses.ctx.fail("remove-while-iterating-query-result-skips-children", "for a in core.getChildren(): core.removeAssembly(a) "
+                         "removes every assembly", ses.case(), observed=[ses.idx(c) for c in core], expected=[])
+    elif op == "retype":
+        # a child's type name / flags change: typed queries on its parent must follow (no stale per-object cache)
+        from armi.reactor.flags import Flags
+
+        pool = [o for o in objs if _safe_type(o) is not None and id(o) not in ses.dead and o.parent is not None
+                and K(o) in (K_COMPONENT, K_BLOCK, K_ASSEMBLY)]
+        if ses.focus is not None and rng.random() < 0.6:
+            pool = [o for o in pool if o.parent is ses.focus] or pool
+        if not pool:
+            raise _Skip()
+        c = rng.choice(pool)
+        how = rng.choice(["setType", "setType+flags", "flags"])
+        t = rng.choice(TYPE_POOL)
+        fl = Flags(rng.choice([int(Flags.FUEL), int(Flags.CLAD), int(Flags.DUCT), int(Flags.FUEL | Flags.INNER), int(Flags.CONTROL)]))
+        if how == "setType":
+            ok = _call(lambda: c.setType(t))
+        elif how == "setType+flags":
+            ok = _call(lambda: c.setType(t, fl))
+        else:
+            def setf():
+                c.p.flags = fl
+            ok = _call(setf)
+        ses.ctx.count(f"meta-data edit: {how} on a {type(c).__name__}")
+        if ok and how != "flags" and _safe_type(c) != t:
+            ses.ctx.fail("setType-not-applied", "setType changes the type name", ses.case() | {"object": ses.idx(c)})
+        ses.after(f"setmeta {ses.idx(c)} {int(c.p.flags) if c.p.flags else 0} {type_code(c)}", ok, "setType/flags")
+    elif op == "clearcache":
+        o = ses.focus if ses.focus is not None and rng.random() < 0.6 else rng.choice(objs)
+        o.clearCache()
+        ses.ctx.count("clearCache()")
+        raise _Skip()
     elif op == "sort":
         p = core if shape == "core" and rng.random() < 0.5 else rng.choice(parents)
         r = ses.ranks(p)
